@@ -7,6 +7,7 @@
 use std::cell::RefCell;
 use std::collections::hash_map::DefaultHasher;
 use std::hash::{Hash, Hasher};
+use std::panic::AssertUnwindSafe;
 
 use serde_json::{json, Value};
 
@@ -25,6 +26,8 @@ struct Ledger {
     created: u32,
     dropped: Vec<u8>,
     garbage_drops: u32,
+    /// elements a panicking predicate made unreachable (a leak the property does not forbid)
+    excused: Vec<u32>,
 }
 
 thread_local! {
@@ -72,9 +75,13 @@ impl Clone for Tracked {
         Tracked::new(self.val)
     }
 }
+/// The drop-tracked element has one value that is not equal to itself (as a float NaN is):
+/// comparisons have to be made element by element, whatever the vector's identity.
+pub const NAN_LIKE: u8 = 255;
+
 impl PartialEq for Tracked {
     fn eq(&self, o: &Self) -> bool {
-        self.val == o.val
+        self.val == o.val && self.val != NAN_LIKE
     }
 }
 impl Eq for Tracked {}
@@ -98,8 +105,22 @@ pub trait Elem: Clone + Ord + Hash {
     fn make(v: u8) -> Self;
     fn val(&self) -> u8;
     fn bump(&mut self, add: u8);
+    /// ledger identity, if the type is drop-tracked
+    fn id(&self) -> Option<u32> {
+        None
+    }
+    /// `==` of two elements made from these model values
+    fn eq_vals(x: u8, y: u8) -> bool {
+        x == y
+    }
 }
 impl Elem for Tracked {
+    fn eq_vals(x: u8, y: u8) -> bool {
+        x == y && x != NAN_LIKE
+    }
+    fn id(&self) -> Option<u32> {
+        Some(self.id)
+    }
     fn make(v: u8) -> Self {
         Tracked::new(v)
     }
@@ -140,6 +161,8 @@ pub enum Op {
     Retain(usize, u8, u8),
     /// same predicate, but every *visited* element is first changed by `add`
     RetainMut(usize, u8, u8, u8),
+    /// retain (flag: retain_mut) with a predicate that panics at its k-th call, caught
+    RetainPanic(usize, u8, u8, u8, bool),
     Dedup(usize),
     Sort(usize),
     SortDesc(usize),
@@ -190,6 +213,7 @@ impl Op {
             Op::Clear(s) => json!(["clear", s]),
             Op::Retain(s, m, r) => json!(["retain", s, m, r]),
             Op::RetainMut(s, m, r, a) => json!(["retain_mut", s, m, r, a]),
+            Op::RetainPanic(s, m, r, k, mt) => json!(["retain_with_panicking_predicate", s, m, r, k, mt]),
             Op::Dedup(s) => json!(["dedup", s]),
             Op::Sort(s) => json!(["sort", s]),
             Op::SortDesc(s) => json!(["sort_desc", s]),
@@ -225,6 +249,7 @@ impl Op {
             "clear" => Op::Clear(s),
             "retain" => Op::Retain(s, b(2)?.max(1), b(3)?),
             "retain_mut" => Op::RetainMut(s, b(2)?.max(1), b(3)?, b(4)?),
+            "retain_with_panicking_predicate" => Op::RetainPanic(s, b(2)?.max(1), b(3)?, b(4)?, a.get(5)?.as_bool()?),
             "dedup" => Op::Dedup(s),
             "sort" => Op::Sort(s),
             "sort_desc" => Op::SortDesc(s),
@@ -347,6 +372,7 @@ fn run<T: Elem, const N: usize>(c: &SvecCheck, v: &mut Verdict) {
     let mut model: Vec<Option<Vec<u8>>> = vec![None; SLOTS];
     let mut crossed = false;
     let mut removed = false;
+    let mut panicked_predicates = 0u64;
     macro_rules! bad {
         ($i:expr, $class:expr, $($arg:tt)*) => {{
             v.fail($class, $i, format!($($arg)*));
@@ -422,10 +448,59 @@ fn run<T: Elem, const N: usize>(c: &SvecCheck, v: &mut Verdict) {
                     removed = true;
                 }
             }
+            Op::RetainPanic(s, md, r, k, as_mut) => {
+                if let (Some(a), Some(m)) = (&mut sv[*s], &mut model[*s]) {
+                    let (md, r, k, as_mut) = (*md, *r, *k as usize, *as_mut);
+                    let before: Vec<u32> = a.iter().filter_map(|t| t.id()).collect();
+                    let calls = std::cell::Cell::new(0usize);
+                    let did_panic = panics(AssertUnwindSafe(|| {
+                        if as_mut {
+                            a.retain_mut(|t| {
+                                calls.set(calls.get() + 1);
+                                if calls.get() > k {
+                                    panic!("predicate panics");
+                                }
+                                t.val() % md != r
+                            })
+                        } else {
+                            a.retain(|t| {
+                                calls.set(calls.get() + 1);
+                                if calls.get() > k {
+                                    panic!("predicate panics");
+                                }
+                                t.val() % md != r
+                            })
+                        }
+                    }));
+                    if !did_panic {
+                        m.retain(|x| x % md != r);
+                    } else {
+                        panicked_predicates += 1;
+                        // whatever is still visible must be alive, and what became unreachable is
+                        // excused as a leak (never as a second drop)
+                        let after: Vec<u32> = a.iter().filter_map(|t| t.id()).collect();
+                        let dead_visible = LEDGER.with(|l| {
+                            let l = l.borrow();
+                            after.iter().filter(|&&id| l.dropped.get(id as usize).copied().unwrap_or(1) > 0).count()
+                        });
+                        if dead_visible > 0 {
+                            bad!(i, "dropped-element-visible", "op {}: after the predicate of retain panicked at call {}, {} element(s) that were already dropped are still in the vector", i, k + 1, dead_visible);
+                        }
+                        LEDGER.with(|l| {
+                            let mut l = l.borrow_mut();
+                            for id in before.iter().filter(|id| !after.contains(id)) {
+                                l.excused.push(*id);
+                            }
+                        });
+                        *m = a.iter().map(|t| t.val()).collect();
+                    }
+                    removed = true;
+                }
+            }
             Op::Dedup(s) => {
                 if let (Some(a), Some(m)) = (&mut sv[*s], &mut model[*s]) {
                     a.dedup();
-                    m.dedup();
+                    m.dedup_by(|x, y| T::eq_vals(*x, *y));
                     removed = true;
                 }
             }
@@ -452,8 +527,11 @@ fn run<T: Elem, const N: usize>(c: &SvecCheck, v: &mut Verdict) {
             }
             Op::Eq(x, y) => {
                 if let (Some(a), Some(b), Some(ma), Some(mb)) = (&sv[*x], &sv[*y], &model[*x], &model[*y]) {
-                    if (a == b) != (ma == mb) {
-                        bad!(i, "wrong-eq", "op {}: == gives {} but the model vectors {:?} and {:?} give {}", i, a == b, ma, mb, ma == mb);
+                    // (x may be y: a vector compared with itself, element by element like any other)
+                    let want = ma.len() == mb.len() && ma.iter().zip(mb.iter()).all(|(p, q)| T::eq_vals(*p, *q));
+                    #[allow(clippy::nonminimal_bool)]
+                    if (a == b) != want || (a != b) == want {
+                        bad!(i, "wrong-eq", "op {}: == gives {} but the model vectors {:?} and {:?} give {} ({} stands for a value that is not equal to itself)", i, a == b, ma, mb, want, NAN_LIKE);
                     }
                 }
             }
@@ -477,7 +555,8 @@ fn run<T: Elem, const N: usize>(c: &SvecCheck, v: &mut Verdict) {
                         grown.push(T::make(*x));
                     }
                     for (what, other) in [("built by from_vec", &heap), ("built by pushes", &grown)] {
-                        if a != other {
+                        let reflexive = m.iter().all(|x| T::eq_vals(*x, *x));
+                        if (a == other) != reflexive {
                             bad!(i, "wrong-eq", "op {}: vector with contents {:?} is not equal to one {} with the same contents", i, m, what);
                         }
                         if fast_hash_of(a) != fast_hash_of(other) || hash_of(a) != hash_of(other) {
@@ -603,6 +682,9 @@ fn run<T: Elem, const N: usize>(c: &SvecCheck, v: &mut Verdict) {
         }
     }
     drop(sv);
+    if panicked_predicates > 0 {
+        v.add("fired_predicate_panic", panicked_predicates);
+    }
     v.nontrivial = crossed && removed;
 }
 
@@ -621,7 +703,7 @@ pub fn evaluate(c: &SvecCheck) -> Verdict {
             let l = l.borrow();
             (
                 l.created,
-                l.dropped.iter().filter(|&&d| d == 0).count(),
+                l.dropped.iter().enumerate().filter(|(id, &d)| d == 0 && !l.excused.contains(&(*id as u32))).count(),
                 l.dropped.iter().filter(|&&d| d > 1).count(),
                 l.garbage_drops,
             )
@@ -648,7 +730,7 @@ pub fn generate(rng: &mut Rng, prop: &str) -> SvecCheck {
         1 | 2 => rng.urange(3, 14),
         _ => rng.urange(10, 40),
     };
-    let small = |rng: &mut Rng| rng.below(4) as u8;
+    let small = |rng: &mut Rng| if rng.chance(1, 24) { NAN_LIKE } else { rng.below(4) as u8 };
     let vals = |rng: &mut Rng, n: usize| -> Vec<u8> {
         // lengths biased to the inline/heap boundary N-1, N, N+1
         let l = match rng.below(6) {
@@ -682,6 +764,7 @@ pub fn generate(rng: &mut Rng, prop: &str) -> SvecCheck {
             10 | 11 => Op::Extend(s, vals(rng, n)),
             12 => Op::Clear(s),
             13 | 14 => Op::Retain(s, 1 + rng.below(3) as u8, rng.below(3) as u8),
+            15 | 16 if rng.chance(1, 8) => Op::RetainPanic(s, 1 + rng.below(3) as u8, rng.below(3) as u8, rng.below(4) as u8, rng.coin()),
             15 | 16 => Op::RetainMut(s, 1 + rng.below(3) as u8, rng.below(3) as u8, rng.below(3) as u8),
             17 | 18 => Op::Dedup(s),
             19 => Op::Sort(s),
